@@ -24,10 +24,14 @@ import (
 
 var c18IDs = []string{"Ja", "jb", "JC", "jd", "Je"}
 
+// c18Ghosts are the names used for references that do not resolve.
+var c18Ghosts = []string{"Ghost", "Phantom"}
+
 type c18Case struct {
 	N     int
 	Needs [][]string // per job, as written
 	Desc  string
+	IDs   []string `json:"ids,omitempty"` // job ids when they are not the default ones
 }
 
 func (c *c18Case) yaml() string {
@@ -326,9 +330,9 @@ func c18Enumerate(n int, selfLoops bool, variants bool, yield func(idx int64, c 
 					nn := make([][]string, n)
 					copy(nn, o)
 					if front {
-						nn[i] = append([]string{"Ghost"}, o[i]...)
+						nn[i] = append([]string{c18Ghosts[0]}, o[i]...)
 					} else {
-						nn[i] = append(append([]string{}, o[i]...), "Ghost")
+						nn[i] = append(append([]string{}, o[i]...), c18Ghosts[0])
 					}
 					c := &c18Case{N: n, Needs: nn, Desc: fmt.Sprintf("n=%d mask=%#x dangling job=%d front=%v", n, mask, i, front)}
 					if !yield(idx, c) {
@@ -343,11 +347,11 @@ func c18Enumerate(n int, selfLoops bool, variants bool, yield func(idx int64, c 
 					copy(nn, o)
 					switch form {
 					case 0:
-						nn[i] = append([]string{"Ghost", "Phantom"}, o[i]...)
+						nn[i] = append([]string{c18Ghosts[0], c18Ghosts[1]}, o[i]...)
 					case 1:
-						nn[i] = append(append([]string{"Ghost"}, o[i]...), "Phantom")
+						nn[i] = append(append([]string{c18Ghosts[0]}, o[i]...), "Phantom")
 					case 2:
-						nn[i] = append(append([]string{}, o[i]...), "Ghost", "Phantom")
+						nn[i] = append(append([]string{}, o[i]...), c18Ghosts[0], c18Ghosts[1])
 					}
 					c := &c18Case{N: n, Needs: nn, Desc: fmt.Sprintf("n=%d mask=%#x two dangling job=%d form=%d", n, mask, i, form)}
 					if !yield(idx, c) {
@@ -358,8 +362,8 @@ func c18Enumerate(n int, selfLoops bool, variants bool, yield func(idx int64, c 
 				for j := i + 1; j < n; j++ {
 					nn := make([][]string, n)
 					copy(nn, o)
-					nn[i] = append(append([]string{}, o[i]...), "Ghost")
-					nn[j] = append([]string{"Phantom"}, o[j]...)
+					nn[i] = append(append([]string{}, o[i]...), c18Ghosts[0])
+					nn[j] = append([]string{c18Ghosts[1]}, o[j]...)
 					c := &c18Case{N: n, Needs: nn, Desc: fmt.Sprintf("n=%d mask=%#x dangling jobs=%d,%d", n, mask, i, j)}
 					if !yield(idx, c) {
 						return
@@ -422,6 +426,9 @@ func TestVerifC18(t *testing.T) {
 		var c c18Case
 		if err := jsonUnmarshal(raw, &c); err != nil {
 			t.Fatal(err)
+		}
+		if c.IDs != nil {
+			c18IDs = c.IDs
 		}
 		for k := 0; k < 2; k++ {
 			d := c18RunRule(&c)
@@ -501,6 +508,20 @@ func TestVerifC18(t *testing.T) {
 	if vThorough() {
 		r.Bounds["jobs_loop_free_graphs"] = 5
 		c18Enumerate(5, false, false, check)
+	}
+	// the same graphs on <= 3 jobs with ids and dangling names in unusual spellings (leading digit,
+	// dot, space, leading underscore): ids are labels, the verdicts do not depend on them
+	{
+		ids, ghosts := c18IDs, c18Ghosts
+		c18IDs, c18Ghosts = []string{"1a", "b.C", "d e", "_f", "g-1"}, []string{"3rd", "x.y z"}
+		for n := 1; n <= 3; n++ {
+			c18Enumerate(n, true, true, func(idx int64, c *c18Case) bool {
+				c.Desc = "odd-ids " + c.Desc
+				c.IDs = c18IDs
+				return check(idx+1<<40, c)
+			})
+		}
+		c18IDs, c18Ghosts = ids, ghosts
 	}
 
 	// end-to-end slice: every graph on <= 3 jobs through Linter.Lint (YAML text, real parser,
